@@ -44,6 +44,7 @@ type Case struct {
 	Shape  *dsl.Shape `json:"shape,omitempty"`
 	Seed   int64      `json:"seed,omitempty"`
 	Mid    int        `json:"mid,omitempty"` // index of the description in Dsl.tla (meaning cases)
+	Idx    []int      `json:"idx,omitempty"` // num cases: kind, literal; errline cases: template, prefix, suffix
 }
 
 type ev map[string]any
@@ -508,6 +509,19 @@ func sweep(shapesPath, outPath string) {
 				}
 			}
 		}
+		// boundary numbers in place of every number
+		for i, t := range d.toks {
+			if t.Kind != "int" || di%2 != 0 {
+				continue
+			}
+			for _, lit := range dsl.Numbers {
+				x := d.text[:t.Start] + lit + d.text[t.End:]
+				if !seen[d.font+x] {
+					seen[d.font+x] = true
+					add(d.font, x, fmt.Sprintf("description %d: number token %d replaced by %s", di, i, lit))
+				}
+			}
+		}
 		// escape-dense strings: 0..3 escape sequences before and after a rune that is not mapped, for every
 		// escape the lexer accepts, in place of the first two strings of the description
 		for k, si := range d.strs {
@@ -651,6 +665,41 @@ type meanCase struct {
 	Mid  int    `json:"mid"`
 	Font string `json:"font"`
 	Text string `json:"text"`
+	Nk   int    `json:"nk"` // number cases of DslLang.tla: place of the number, literal
+	Nl   int    `json:"nl"`
+	Et   int    `json:"et"` // error-line cases: erroneous lookup, what stands before, what stands after
+	Ep   int    `json:"ep"`
+	Ex   int    `json:"ex"`
+}
+
+// runNum parses a text with a boundary number at some place of the grammar and records the canonical result.
+func runNum(c *Case, out *vio.Out) {
+	f := font(c.Font)
+	o := parseOnce(f.F, c.Text)
+	got := []any{}
+	if o.OK {
+		got, _ = dsl.Canon(o.Lookups)
+	}
+	pp := trim(o.PanicMsg, 300)
+	if o.Panicked && pp == "" {
+		pp = "panic"
+	}
+	out.Emit(ev{"ev": "num", "case": c.ID, "nk": c.Idx[0], "nl": c.Idx[1], "font": c.Font, "text": c.Text,
+		"returned": o.Returned, "leaks": o.Leaked, "perr": trim(o.Err, 300), "ppanic": pp, "got": got})
+}
+
+// runErrLine parses an erroneous text and records the line and the token the error names.
+func runErrLine(c *Case, out *vio.Out) {
+	f := font(c.Font)
+	o := parseOnce(f.F, c.Text)
+	pp := trim(o.PanicMsg, 300)
+	if o.Panicked && pp == "" {
+		pp = "panic"
+	}
+	line, item := dsl.ErrLineItem(o.Err)
+	out.Emit(ev{"ev": "errline", "case": c.ID, "et": c.Idx[0], "ep": c.Idx[1], "ex": c.Idx[2], "font": c.Font,
+		"text": c.Text, "returned": o.Returned, "leaks": o.Leaked, "perr": trim(o.Err, 300), "ppanic": pp,
+		"line": line, "item": item})
 }
 
 func runMean(c *Case, out *vio.Out) {
@@ -669,14 +718,31 @@ func runMean(c *Case, out *vio.Out) {
 		"leaks": o.Leaked, "perr": trim(o.Err, 300), "ppanic": pp, "got": got, "note": note})
 }
 
+func runText(c *Case, out *vio.Out) {
+	switch c.Kind {
+	case "num":
+		runNum(c, out)
+	case "errline":
+		runErrLine(c, out)
+	default:
+		runMean(c, out)
+	}
+}
+
 func mean(casesPath, outPath string) {
 	mcs := vio.ReadLines[meanCase](casesPath)
 	out := vio.NewOut(outPath)
 	caseLog := vio.NewOut(outPath + ".cases")
 	for i, m := range mcs {
 		c := &Case{ID: i + 1, Kind: "mean", Font: m.Font, Text: m.Text, Mid: m.Mid}
+		switch {
+		case m.Nk > 0:
+			c.Kind, c.Idx = "num", []int{m.Nk, m.Nl}
+		case m.Et > 0:
+			c.Kind, c.Idx = "errline", []int{m.Et, m.Ep, m.Ex}
+		}
 		caseLog.Emit(c)
-		runMean(c, out)
+		runText(c, out)
 	}
 	out.Close()
 	caseLog.Close()
@@ -698,8 +764,8 @@ func one(casePath, outPath string) {
 		runParseCases([]*Case{&c}, out, nil)
 	case "rt":
 		runRT(&c, out)
-	case "mean":
-		runMean(&c, out)
+	case "mean", "num", "errline":
+		runText(&c, out)
 	default:
 		vio.Fatal("unknown case kind " + c.Kind)
 	}
